@@ -346,7 +346,7 @@ struct Model {
 					} else {
 						size_t bar = name.find('|', i);
 						q = name.substr(i, bar == std::string::npos ? std::string::npos : bar - i);
-						if (q.find_first_of("'\\=") != std::string::npos)
+						if (q.find_first_of("'\\") != std::string::npos) // (an '=' inside a bare title belongs to the title)
 							return DONTCARE;
 						next = bar;
 					}
